@@ -38,7 +38,8 @@ type PacketRec struct {
 	Key      PKey
 	Orig     packettypes.Packet // as announced by the source chain
 	SentStep int
-	AckBytes []byte // first acknowledgement written for it (by destination, or by the relay chain when it refuses)
+	AckBytes []byte            // first acknowledgement written for it (by destination, or by the relay chain when it refuses)
+	AckOn    map[string][]byte // chain -> acknowledgement that chain announced last (what a relayer proving from it passes on)
 	AckBy    string
 	AckErr   bool
 }
@@ -222,6 +223,12 @@ func (w *World) track(a *Action) {
 		case packettypes.EventTypeWriteAck:
 			p := PacketFromEvent(ev)
 			k := PKey{p.SourceChain, p.DestinationChain, p.Sequence}
+			if rec, ok := w.Packets[k]; ok {
+				if rec.AckOn == nil {
+					rec.AckOn = map[string][]byte{}
+				}
+				rec.AckOn[a.On.Name] = []byte(attr(ev, packettypes.AttributeKeyAck))
+			}
 			if rec, ok := w.Packets[k]; ok && rec.AckBytes == nil {
 				rec.AckBytes = []byte(attr(ev, packettypes.AttributeKeyAck))
 				rec.AckBy = a.On.Name
@@ -431,9 +438,14 @@ func (w *World) HonestRecv(rec *PacketRec, on, from *vnet.Chain, signer *vnet.Ac
 
 // HonestAck builds the honest acknowledgement of rec on `on` proven from `from`.
 func (w *World) HonestAck(rec *PacketRec, on, from *vnet.Chain, signer *vnet.Account) *Action {
-	m := vnet.AckMsg(on, from, rec.Orig, rec.AckBytes, signer.Addr)
+	// a relayer passes on the acknowledgement it saw the proving chain announce
+	ack := rec.AckBytes
+	if b := rec.AckOn[from.Name]; b != nil {
+		ack = b
+	}
+	m := vnet.AckMsg(on, from, rec.Orig, ack, signer.Addr)
 	p := rec.Orig
-	return &Action{Kind: "ack", On: on, From: from, Msgs: []sdk.Msg{m}, Signer: signer, Packet: &p, Ack: rec.AckBytes, Proof: m.ProofAcked, PH: m.ProofHeight}
+	return &Action{Kind: "ack", On: on, From: from, Msgs: []sdk.Msg{m}, Signer: signer, Packet: &p, Ack: ack, Proof: m.ProofAcked, PH: m.ProofHeight}
 }
 
 // HonestRecvClean builds the honest receive-clean on `on` proven from `from`.
